@@ -10,11 +10,11 @@ git apply "$DIFF" || { echo "APPLY-FAILED"; exit 9; }
 suite=$(cargo test --workspace --no-fail-fast --offline 2>&1 | grep -E "^test result" | awk '{p+=$4; f+=$6} END {print p" passed "f" failed"}')
 echo "suite-with-change: $suite"
 cp "$DEMO" tests/zz_seed_demo.rs
-cargo test --offline ${SEED_FEATURES:-} --test zz_seed_demo >/tmp/seed_demo_with.log 2>&1; rc_with=$?
-cargo test --offline --release ${SEED_FEATURES:-} --test zz_seed_demo >/tmp/seed_demo_with_rel.log 2>&1; rc_with_rel=$?
+cargo test --offline ${SEED_FEATURES:-} --test zz_seed_demo >/tmp/seed_demo_${SEED_TAG:-x}_with.log 2>&1; rc_with=$?
+cargo test --offline --release ${SEED_FEATURES:-} --test zz_seed_demo >/tmp/seed_demo_${SEED_TAG:-x}_with_rel.log 2>&1; rc_with_rel=$?
 echo "demo-with-change: debug rc=$rc_with release rc=$rc_with_rel"
 git checkout -q -- .
-cargo test --offline ${SEED_FEATURES:-} --test zz_seed_demo >/tmp/seed_demo_without.log 2>&1; rc_without=$?
+cargo test --offline ${SEED_FEATURES:-} --test zz_seed_demo >/tmp/seed_demo_${SEED_TAG:-x}_without.log 2>&1; rc_without=$?
 echo "demo-without-change: rc=$rc_without"
 rm -f tests/zz_seed_demo.rs
 git status --short | head -3
